@@ -118,36 +118,68 @@ impl World {
             self.fresh.entry("user-id").or_default().insert(rec);
         }
         if self.wants(Class::Tracing) {
-            self.stats.check("tracing");
-            if let Ok(mb) = self.auth.msk.serialize() {
-                if let Ok(wm) = wire::parse_msk(&mb) {
-                    if !wm.users.iter().any(|u| *u == w.id) {
-                        fails.push((Class::Tracing, format!("{op}/id-not-registered"), String::new()));
-                    }
-                    let tracer_sk: Vec<Vec<u8>> = wm.tracers.iter().map(|(sk, _)| sk.clone()).collect();
-                    let tracer_pk: Vec<Vec<u8>> = wm.tracers.iter().map(|(_, pk)| pk.clone()).collect();
-                    match bigmod::tracing_relation(&w.id, &tracer_sk, &wm.s) {
-                        Some(true) => {}
-                        Some(false) => fails.push((Class::Tracing, format!("{op}/relation-broken"), String::new())),
-                        None => self.stats.unobservable += 1,
-                    }
-                    if w.ps != tracer_pk {
-                        fails.push((Class::Tracing, format!("{op}/usk-tracing-points-differ-from-msk"), String::new()));
-                    }
-                    if let Ok(pb) = self.auth.mpk.serialize() {
-                        if let Ok(wp) = wire::parse_mpk(&pb) {
-                            if wp.tpk != tracer_pk {
-                                fails.push((Class::Tracing, format!("{op}/mpk-tracing-points-differ-from-msk"), String::new()));
-                            }
-                        }
-                    }
-                } else {
-                    self.stats.unobservable += 1;
-                }
-            }
+            self.tracing_checks(&w, op, &mut fails);
         }
         for (c, w, d) in fails {
             self.fail(c, w, d);
+        }
+    }
+
+    /// Tracing checks of a parsed user key against the MSK bytes: identifier registered, tracing
+    /// relation, tracing points equal to the master's and to the public key's.
+    fn tracing_checks(&mut self, w: &wire::WUsk, op: &str, fails: &mut Vec<(Class, String, String)>) {
+        self.stats.check("tracing");
+        if let Ok(mb) = self.auth.msk.serialize() {
+            if let Ok(wm) = wire::parse_msk(&mb) {
+                if !wm.users.iter().any(|u| *u == w.id) {
+                    fails.push((Class::Tracing, format!("{op}/id-not-registered"), String::new()));
+                }
+                let tracer_sk: Vec<Vec<u8>> = wm.tracers.iter().map(|(sk, _)| sk.clone()).collect();
+                let tracer_pk: Vec<Vec<u8>> = wm.tracers.iter().map(|(_, pk)| pk.clone()).collect();
+                match bigmod::tracing_relation(&w.id, &tracer_sk, &wm.s) {
+                    Some(true) => {}
+                    Some(false) => fails.push((Class::Tracing, format!("{op}/relation-broken"), String::new())),
+                    None => self.stats.unobservable += 1,
+                }
+                if w.ps != tracer_pk {
+                    fails.push((Class::Tracing, format!("{op}/usk-tracing-points-differ-from-msk"), String::new()));
+                }
+                if let Ok(pb) = self.auth.mpk.serialize() {
+                    if let Ok(wp) = wire::parse_mpk(&pb) {
+                        if wp.tpk != tracer_pk {
+                            fails.push((Class::Tracing, format!("{op}/mpk-tracing-points-differ-from-msk"), String::new()));
+                        }
+                    }
+                }
+            } else {
+                self.stats.unobservable += 1;
+            }
+        }
+    }
+
+    /// After a reload of the MSK every identifier the model knows must still be registered.
+    pub fn check_registered_ids(&mut self, op: &str) {
+        if !self.wants(Class::Tracing) {
+            return;
+        }
+        let Ok(mb) = self.auth.msk.serialize() else { return };
+        let Ok(wm) = wire::parse_msk(&mb) else {
+            self.stats.unobservable += 1;
+            return;
+        };
+        self.stats.check("registered-ids");
+        let registered: BTreeSet<Vec<u8>> = wm.users.iter().map(|u| u.concat()).collect();
+        let mut lost = 0;
+        if let Some(ids) = self.fresh.get("user-id") {
+            for rec in ids {
+                let kid = u64::from_le_bytes(rec[..8].try_into().unwrap());
+                if self.auth.m.known_users.contains(&kid) && !registered.contains(&rec[8..].to_vec()) {
+                    lost += 1;
+                }
+            }
+        }
+        if lost > 0 {
+            self.fail(Class::Tracing, format!("{op}/registered-id-lost"), format!("{lost} identifiers of issued keys are missing from the MSK"));
         }
     }
 
@@ -396,6 +428,18 @@ impl World {
                         format!("refresh-accepted/operator={opname}"),
                         format!("keep={keep} bytes {}", bytes.len()),
                     );
+                    if self.wants(Class::Tracing) {
+                        // an altered key was accepted: the key it produced must still satisfy C17
+                        if let Ok(b) = usk.serialize() {
+                            if let Ok(wu) = wire::parse_usk(&b) {
+                                let mut fails = vec![];
+                                self.tracing_checks(&wu, "refresh-of-altered-key", &mut fails);
+                                for (c, w, d) in fails {
+                                    self.fail(c, w, d);
+                                }
+                            }
+                        }
+                    }
                     if self.wants(Class::OkErrRefresh) && !self.wants(Class::Forged) {
                         self.fail(
                         Class::OkErrRefresh,
@@ -445,6 +489,8 @@ impl World {
             self.fail(Class::OkErrRefresh, what, format!("sut: {:?}", r.as_ref().err().map(|e| e.to_string())));
             if mr.is_err() {
                 self.fail(Class::Tracing, "refresh/unknown-id-accepted", String::new());
+            } else {
+                self.fail(Class::Tracing, "refresh/issued-key-refused", format!("sut: {:?}", r.as_ref().err().map(|e| e.to_string())));
             }
         }
         if mr.is_err() {
@@ -1204,6 +1250,7 @@ impl World {
                 let msk = std::mem::replace(&mut self.auth.msk, dummy_msk());
                 let r = self.reload_obj(&msk, "msk");
                 self.auth.msk = r.unwrap_or(msk);
+                self.check_registered_ids("reload-msk");
             }
             ReloadTarget::AuthorityMpk => {
                 let mpk = std::mem::replace(&mut self.auth.mpk, dummy_mpk());
